@@ -24,6 +24,7 @@ const (
 	c13OKv6Spelled // a valid IPv4 target written as ::ffff:a.b.c.d
 	c13PortMax     // the highest valid port
 	c13LongLine    // a line beyond bufio.Scanner's 64 KiB limit: one error stating that, nothing after it
+	c13SubnetIP    // the address field holds a subnet, not an address: not a target
 	c13NumClasses
 )
 
@@ -41,6 +42,7 @@ var c13Text = [c13NumClasses]string{
 	c13OKv6Spelled: `{"ip":"::ffff:10.5.5.%","port":5%}`,
 	c13PortMax:     `{"ip":"10.6.6.%","port":65535}`,
 	c13LongLine:    `{"ip":"10.7.7.%","port":80,"comment":"LONG"}`,
+	c13SubnetIP:    `{"ip":"10.8.8.0/2%","port":44%}`,
 }
 
 // c13Cause is the error a line of class c must be reported with (nil: the line is a target).
@@ -52,7 +54,7 @@ func c13Cause(c int) error {
 		return bufio.ErrTooLong
 	case c13BadJSON, c13WrongType, c13Blank:
 		return ErrJSON
-	case c13NoIP, c13BadIP:
+	case c13NoIP, c13BadIP, c13SubnetIP:
 		return ErrIP
 	}
 	return ErrPort
